@@ -1126,7 +1126,13 @@ fn expand_includes(path: &str, depth: usize) -> String {
     let mut out = String::new();
     for l in tpl.split_inclusive('\n') {
         if let Some(r) = l.trim().strip_prefix("//@include ") {
-            let p = dir.join(r.trim());
+            // `$VX_GEN/<file>`: a file generated from the repo under test by the driver just before extraction
+            let r = match (r.trim().strip_prefix("$VX_GEN/"), std::env::var("VX_GEN")) {
+                (Some(rest), Ok(g)) => format!("{}/{}", g, rest),
+                (Some(rest), Err(_)) => format!("lib/{}", rest),
+                _ => r.trim().to_string(),
+            };
+            let p = if r.starts_with('/') { std::path::PathBuf::from(&r) } else { dir.join(&r) };
             out.push_str(&expand_includes(p.to_str().unwrap(), depth + 1));
             if !out.ends_with('\n') {
                 out.push('\n');
